@@ -7,35 +7,45 @@
    ("p |= f equals its defining reduction") is checked by the implementation-only oracles of
    harness/c02 (no model needed) and needs the language semantics of another slice to be stated in Coq.
 
-   The full-strength refinement statement is FALSE for the code as it is (findings D4, D5, D9 in
-   docs/C02.md).  It is kept visible as [C02_heap_full]; its three weakenings-of-hypotheses are refuted by
-   witnesses computed with the model, and the positive theorem is proved under the explicit, satisfiable
-   side conditions  no_slice p  /  the new value is frozen  /  the ownership invariant [orep]. *)
+   The model is of the CURRENT code ([current]: three-index reslice of fix 8b3b8e6, two-parameter deleteEmpty
+   of fix 96ad5a7).  The full-strength refinement statement is still FALSE for it (known findings D5, D9 in
+   docs/C02.md).  It is kept visible as [C02_heap_full]; dropping either of the two hypotheses "the new value
+   is frozen" / "ownership invariant [orep]" is refuted by witnesses computed with the model, and the positive
+   theorem is proved under those hypotheses for paths whose slice component, if any, comes last
+   ([ok_path]); a slice component followed by further components is modelled and corresponded but neither
+   proved nor refuted ([C02_heap_inner_slices_open]).  D4 (repaired) is kept as a regression example. *)
 From Coq Require Import List ZArith NArith.
-From Verif Require Import c02.Path c02.PathProofs c02.HeapPath c02.HeapInv c02.HeapProofs c02.HeapAbs c02.HeapWitness.
+From Verif Require Import c02.Path c02.PathProofs c02.HeapPath c02.HeapInv c02.HeapProofs c02.HeapSlice c02.HeapAbs c02.HeapWitness.
 Import ListNotations.
 
 (* The statement one would like (DESIGN section 5, C02 T.1): on ANY acyclic heap, for ANY path and ANY
    acyclic new value, update returns a value that denotes Path.setpath of the denoted input. *)
 Definition C02_heap_full : Prop := forall p h ps v j n jn,
   alloc_wf ps -> (exists fuel, abs fuel h v = Some j) -> (exists fuel, abs fuel h n = Some jn) ->
-  refines as_is h ps v p n j jn.
+  refines current h ps v p n j jn.
+
+(* Open (neither proved nor refuted; corresponded by the heap stream): the positive theorem for EVERY path,
+   i.e. also for a slice component followed by further components, where update works through a
+   sub-slice window of an owned array. *)
+Definition C02_heap_inner_slices_open : Prop := forall p h ps v j fp n jn,
+  alloc_wf ps -> orep h ps j v fp -> NoDup fp -> frep h ps jn n -> refines current h ps v p n j jn.
 
 (* ---- positive theorem ---- *)
 (* On a heap satisfying the ownership invariant (allocated containers form a tree below the state, each
    with one owner, seen through full slice headers; everything else is never written), for a path of keys
-   and indices and a new value that contains no allocated container:
+   and indices whose last component may be a slice ([ok_path]: `.a[1][2:4] = x`, `del(.a[1:])`, ...) and a
+   new value that contains no allocated container:
    update fails exactly when Path.setpath fails; otherwise it returns (h',u) such that
    - abs h' u = setpath (abs h v) path n for every sufficient fuel (so u is ACYCLIC),
    - FRAME: every value x that does not reach an allocated container denotes the same value in h',
    - the invariant holds again for u (so the next step of the reduction may rely on it). *)
 Theorem C02_abs_update : forall p h ps v j fp n jn,
-  alloc_wf ps -> orep h ps j v fp -> NoDup fp -> frep h ps jn n -> no_slice p ->
+  alloc_wf ps -> orep h ps j v fp -> NoDup fp -> frep h ps jn n -> ok_path p ->
   match setpath j p jn with
-  | None => update as_is h (Some ps) v p n = None
+  | None => update current h (Some ps) v p n = None
   | Some j' =>
       exists h' ps' u fp',
-        update as_is h (Some ps) v p n = Some (h', Some ps', u) /\
+        update current h (Some ps) v p n = Some (h', Some ps', u) /\
         (forall fuel, depth j' < fuel -> abs fuel h' u = Some j') /\
         (forall jx x, frep h ps jx x -> frep h' ps' jx x /\ forall fuel, depth jx < fuel -> abs fuel h' x = Some jx) /\
         orep h' ps' j' u fp' /\ NoDup fp' /\ alloc_wf ps'
@@ -48,24 +58,39 @@ Theorem C02_invariant_acyclic : forall j h ps v fp, orep h ps j v fp -> forall f
 Proof. exact orep_abs. Qed.
 Print Assumptions C02_invariant_acyclic.
 
-(* ---- the full statement is false; each of the three hypotheses is necessary (expected on the current tree) ---- *)
+(* ---- the full statement is false; each of the two hypotheses is necessary (known findings D5, D9) ---- *)
 Theorem C02_heap_full_refuted : ~ C02_heap_full.
 Proof. exact heap_full_refuted. Qed.
 Print Assumptions C02_heap_full_refuted.
 
-(* D4: with a slice component (all other hypotheses kept) the result is not setpath's *)
-Theorem C02_abs_update_refuted_slice : ~ full_any_path as_is.
-Proof. exact abs_update_refuted_slice. Qed.
-Print Assumptions C02_abs_update_refuted_slice.
+(* D4 (repaired): the old two-index reslice gives [1,7,7,7] on the recorded witness, the current code the
+   reference value [1,7,2,7] *)
+Example C02_D4_regression :
+  let run cfg := match update cfg h4 (Some [PArr 0 0]) (HArr 0 0 3 3) p4 (HNum 7%Z) with
+                 | Some (h', _, u) => abs 8 h' u | None => None end in
+  run two_index = Some (JArr [JNum 1; JNum 7; JNum 7; JNum 7]) /\
+  run current = Some (JArr [JNum 1; JNum 7; JNum 2; JNum 7]) /\
+  setpath (JArr [JNum 1; JNum 2; JNum 7]) p4 (JNum 7%Z) = Some (JArr [JNum 1; JNum 7; JNum 2; JNum 7]).
+Proof. exact D4_regression. Qed.
+
+(* D5 on the current code with its slice path: the second step of [0,1] | (.[1:],.[1:]) |= [.] returns a
+   value that is cyclic for every fuel *)
+Example C02_D5_cyclic :
+  exists h' A',
+    update current h5s (Some [PArr 1 0]) (HArr 1 0 2 2) [PS (Some 1%Z) None] (HArr 2 0 1 1) = Some (h', A', HArr 1 0 2 2) /\
+    (forall fuel, abs fuel h' (HArr 1 0 2 2) = None) /\
+    abs 5 h5s (HArr 1 0 2 2) = Some (JArr [JNum 0; JArr [JNum 1]]) /\
+    abs 5 h5s (HArr 2 0 1 1) = Some (JArr [JArr [JArr [JNum 1]]]).
+Proof. exact D5_cyclic. Qed.
 
 (* D5: when the new value contains an allocated container of the state, update builds a CYCLIC value *)
-Theorem C02_abs_update_refuted_alias : ~ full_any_value as_is.
+Theorem C02_abs_update_refuted_alias : ~ full_any_value current.
 Proof. exact abs_update_refuted_alias. Qed.
 Print Assumptions C02_abs_update_refuted_alias.
 
 (* D9: on an acyclic state in which an allocated container has two owners a write through one path
    changes what is stored under another *)
-Theorem C02_abs_update_refuted_shared : ~ full_any_state as_is.
+Theorem C02_abs_update_refuted_shared : ~ full_any_state current.
 Proof. exact abs_update_refuted_shared. Qed.
 Print Assumptions C02_abs_update_refuted_shared.
 
@@ -92,6 +117,14 @@ Theorem C02_delpaths_descending : forall l is, Forall clean l -> descending is -
 Proof. exact delpaths_descending. Qed.
 Print Assumptions C02_delpaths_descending.
 
+(* the slice case of C02_abs_update computes in place on an allocated array when the lengths agree *)
+Example C02_slice_in_place :
+  ok_path [PS (Some 1%Z) (Some 2%Z)] /\
+  update current [OArr [HNum 1; HNum 2; HNum 3]; OArr [HNum 9]] (Some [PArr 0 0]) (HArr 0 0 3 3)
+         [PS (Some 1%Z) (Some 2%Z)] (HArr 1 0 1 1) =
+  Some ([OArr [HNum 1; HNum 9; HNum 3]; OArr [HNum 9]], Some [PArr 0 0], HArr 0 0 3 3).
+Proof. split. constructor. reflexivity. Qed.
+
 (* non-vacuity: hypotheses of C02_abs_update hold on a concrete heap where the write happens IN PLACE in an
    allocated array with spare capacity, beyond its length *)
 Example C02_nonvacuous :
@@ -99,7 +132,7 @@ Example C02_nonvacuous :
   let ps := [PArr 0 0] in
   alloc_wf ps /\ orep h ps (JArr [JNum 1; JObj [([97%N], JNum 2)]]) (HArr 0 0 2 3) [0] /\ NoDup [0] /\
   frep h ps (JNum 7) (HNum 7) /\ no_slice [PI 2%Z] /\
-  update as_is h (Some ps) (HArr 0 0 2 3) [PI 2%Z] (HNum 7) =
+  update current h (Some ps) (HArr 0 0 2 3) [PI 2%Z] (HNum 7) =
     Some ([OArr [HNum 1; HMap 1; HNum 7]; OMap [([97%N], HNum 2)]], Some ps, HArr 0 0 3 3) /\
   setpath (JArr [JNum 1; JObj [([97%N], JNum 2)]]) [PI 2%Z] (JNum 7) = Some (JArr [JNum 1; JObj [([97%N], JNum 2)]; JNum 7]).
 Proof. exact abs_update_nonvacuous. Qed.
